@@ -21,6 +21,26 @@ macro_rules! cfg {
 fn main() {
     let mut run = Run::from_args("C03", "c03");
     vcore::core_configs!(cfg, run);
+    if run.tier == Tier::Quick && (run.in_replay() || run.wants("BUintD8<3>")) {
+        // mini Knuth window (quick): (u2, u1) all 2^16 x u0 = ff against divisors v1 (all 256) x v0 in
+        // an 8-value alphabet: every value of the two leading dividend digits and of the leading divisor digit
+        let mut ops = t::d8::u::<3, i128>();
+        ops.retain(|o| o.name == "checked_div" || o.name == "checked_rem");
+        let mut a: Vec<Vec<u8>> = Vec::with_capacity(2 << 16);
+        for hi in 0..(1u32 << 16) {
+            for u0 in [0xffu8] {
+                a.push(vec![u0, hi as u8, (hi >> 8) as u8]);
+            }
+        }
+        let mut b: Vec<Vec<u8>> = Vec::new();
+        for v1 in 0..=255u8 {
+            for v0 in [0x00u8, 0x01, 0x7f, 0x80, 0xff, 0x3c, 0x9b, 0xe1] {
+                b.push(vec![v0, v1, 0]);
+            }
+        }
+        let plan: Plan<d8::U<3>> = Plan::new("MINI KNUTH WINDOW: (u2,u1) all 2^16 x u0 = ff / (v1 all 256 x v0 in 8 values)", &a, &b, &[]);
+        run.explore(&ops, &plan);
+    }
     if run.tier == Tier::Thorough && (run.in_replay() || run.wants("BUintD8<3>")) {
         // Knuth window sweep: the complete (m = 1, n = 2) state space of the quotient-digit estimate over
         // u8 digits: dividends u2 u1 u0 with (u2, u1) ranging over all 2^16 values and u0 in {00, 80, ff},
